@@ -265,6 +265,36 @@ pub fn time_travel() {
 
 /// C14 on a deeper history of `rounds` diamonds: in every round both replicas edit and commit, then exchange in both
 /// directions. Every recorded head set of replica a is travelled to. params: [rounds]
+/// C14 / C16: a reader opened cold on the storage of a writer that committed a chain of array versions (every array is
+/// rebuilt from its edit scripts) travels to two earlier points in a row; cache capacities symbolic 1..3 or default.
+/// params: [0 = default capacities, 1 = symbolic 1..3]
+pub fn cold_reader_travel() {
+    if sym::param(0) != 0 {
+        let cap = sym::range(1, 3) as usize;
+        sym::set_env("MELDA_ARRAYDESCRIPTORS_CACHE_CAP", cap);
+        sym::set_env("MELDA_DATA_CACHE_CAP", cap);
+    }
+    let versions: [&[&str]; 5] = [&["a", "b", "c", "d"], &["b", "c", "d"], &["c", "d", "e"], &["d", "e"], &["e", "a"]];
+    let w = Rep::new();
+    let mut points: Vec<(BTreeSet<DeltaId>, String)> = Vec::new();
+    for v in versions.iter() {
+        let vals: Vec<String> = v.iter().map(|_| "x".to_string()).collect();
+        w.m.update(doc_with(v, &vals, "t")).unwrap();
+        w.m.commit(None).unwrap().expect("block");
+        points.push((w.m.get_anchors(), doc_text(&w.m)));
+    }
+    let mut cold = w.reopen();
+    assert!(doc_text(&cold) == points[4].1, "reopened replica reads a different document");
+    for _ in 0..2 {
+        let i = sym::choose(points.len());
+        cold.reload_until(&points[i].0).expect("reload_until (cold reader)");
+        assert!(doc_text(&cold) == points[i].1, "a reader opened cold shows a different past document");
+    }
+    cold.reload().expect("reload");
+    assert!(doc_text(&cold) == points[4].1, "reload after time travel does not return to the latest document");
+    sym::reach(1);
+}
+
 pub fn time_travel_rounds() {
     let rounds = sym::param(0) as usize;
     let a = Rep::new();
